@@ -308,6 +308,29 @@ where
                         .map_err(|_| InternalError::from(ERRMSG_HANDLE_DROPPED))?;
                 }
             }
+            RxPacket::Pubrec(pubrec) => {
+                let failed = pubrec.reason as u8 >= 0x80;
+                let rx_packet = RxPacket::Pubrec(pubrec);
+                let action_id = utils::rx_action_id(&rx_packet);
+
+                // A PUBREC carrying an error ends the exchange and releases its slot.
+                if failed && connection.send_quota != connection.remote_receive_maximum {
+                    connection.send_quota += 1;
+                }
+
+                // The PUBLISH has been received, it must not be re-sent anymore.
+                utils::linear_search_by_key(&session.retrasmit_queue, action_id)
+                    .and_then(|pos| session.retrasmit_queue.remove(pos));
+
+                if let Some((_, sender)) =
+                    utils::linear_search_by_key(&session.awaiting_ack, action_id)
+                        .and_then(|pos| session.awaiting_ack.remove(pos))
+                {
+                    sender
+                        .send(Ok(rx_packet))
+                        .map_err(|_| InternalError::from(ERRMSG_HANDLE_DROPPED))?;
+                }
+            }
             RxPacket::Pubrel(pubrel) => {
                 let packet_id = pubrel.packet_identifier;
                 Self::ack::<PubcompReason>(tx, packet_id).await?
